@@ -283,10 +283,10 @@ Qed.
 (* ================================================================== *)
 (* Part 3: selection and transfer split their list                     *)
 (* ================================================================== *)
-Lemma sig_scan_perm ty q : forall ww, Permutation (fst (fst (sig_scan ty q ww)) ++ snd (fst (sig_scan ty q ww))) q.
+Lemma sig_scan_perm (ty : nat -> bool) q : forall ww, Permutation (fst (fst (sig_scan ty q ww)) ++ snd (fst (sig_scan ty q ww))) q.
 Proof.
   induction q as [|p rest IH]; intros ww; cbn [sig_scan]; [constructor|].
-  destruct (is_rdr ty p).
+  destruct (ty p).
   - specialize (IH ww). destruct (sig_scan ty rest ww) as [[wk kp] w2]. cbn [fst snd] in *. now constructor.
   - destruct (negb ww).
     + specialize (IH true). destruct (sig_scan ty rest true) as [[wk kp] w2]. cbn [fst snd] in *. now constructor.
@@ -294,40 +294,70 @@ Proof.
       apply Permutation_sym, Permutation_cons_app, Permutation_sym, IH.
 Qed.
 
-Lemma sel_signal_perm ty q : Permutation (fst (fst (sel_signal ty q)) ++ snd (fst (sel_signal ty q))) q.
+Lemma sel_signal_perm (ty : nat -> bool) q : Permutation (fst (fst (sel_signal ty q)) ++ snd (fst (sel_signal ty q))) q.
 Proof.
   unfold sel_signal. destruct q as [|f rest]; [constructor|].
-  destruct (is_rdr ty f).
+  destruct (ty f).
   - pose proof (sig_scan_perm ty rest false) as IH. destruct (sig_scan ty rest false) as [[wk kp] w2].
     cbn [fst snd] in *. now constructor.
   - cbn [fst snd app]. apply Permutation_refl.
 Qed.
 
-Lemma sel_broadcast_perm ty q : Permutation (fst (fst (sel_broadcast ty q)) ++ snd (fst (sel_broadcast ty q))) q.
+Lemma sel_broadcast_perm (ty : nat -> bool) q : Permutation (fst (fst (sel_broadcast ty q)) ++ snd (fst (sel_broadcast ty q))) q.
 Proof. unfold sel_broadcast. cbn [fst snd]. rewrite app_nil_r. apply Permutation_refl. Qed.
 
-Lemma xfer_rest_perm ty fca fw q : forall a b,
-  Permutation (fst (fst (fst (xfer_rest ty fca fw q a b))) ++ snd (fst (fst (xfer_rest ty fca fw q a b)))) q.
+Lemma xfer_rest_perm nn ty fca fw q : forall a b,
+  Permutation (fst (fst (fst (xfer_rest nn ty fca fw q a b))) ++ snd (fst (fst (xfer_rest nn ty fca fw q a b)))) q.
 Proof.
   induction q as [|p rest IH]; intros a b; cbn [xfer_rest]; [constructor|].
-  destruct (fca || fw || mode_eqb (ty p) W).
+  destruct (nn p); [|destruct (fca || fw || mode_eqb (ty p) W)].
+  - specialize (IH a b).
+    destruct (xfer_rest nn ty fca fw rest a b) as [[[m s] a'] b']. cbn [fst snd] in *.
+    apply Permutation_sym, Permutation_cons_app, Permutation_sym, IH.
   - specialize (IH (a || mode_eqb (ty p) W) b).
-    destruct (xfer_rest ty fca fw rest (a || mode_eqb (ty p) W) b) as [[[m s] a'] b']. cbn [fst snd] in *. now constructor.
+    destruct (xfer_rest nn ty fca fw rest (a || mode_eqb (ty p) W) b) as [[[m s] a'] b']. cbn [fst snd] in *. now constructor.
   - specialize (IH a (b || negb (mode_eqb (ty p) W))).
-    destruct (xfer_rest ty fca fw rest a (b || negb (mode_eqb (ty p) W))) as [[[m s] a'] b']. cbn [fst snd] in *.
+    destruct (xfer_rest nn ty fca fw rest a (b || negb (mode_eqb (ty p) W))) as [[[m s] a'] b']. cbn [fst snd] in *.
     apply Permutation_sym, Permutation_cons_app, Permutation_sym, IH.
 Qed.
 
-Lemma xfer_perm ty fca wk : Permutation (fst (fst (xfer ty fca wk)) ++ snd (fst (xfer ty fca wk))) wk.
+Lemma xfer_perm nn ty fca wk : Permutation (fst (fst (xfer nn ty fca wk)) ++ snd (fst (xfer nn ty fca wk))) wk.
 Proof.
   unfold xfer. destruct wk as [|f rest]; [constructor|].
-  pose proof (xfer_rest_perm ty fca (mode_eqb (ty f) W) rest (if fca then mode_eqb (ty f) W else false)
+  pose proof (xfer_rest_perm nn ty fca (mode_eqb (ty f) W) rest (if fca then mode_eqb (ty f) W else false)
                 (if fca then false else negb (mode_eqb (ty f) W))) as IH.
-  destruct (xfer_rest ty fca (mode_eqb (ty f) W) rest (if fca then mode_eqb (ty f) W else false)
+  destruct (xfer_rest nn ty fca (mode_eqb (ty f) W) rest (if fca then mode_eqb (ty f) W else false)
               (if fca then false else negb (mode_eqb (ty f) W))) as [[[m s] a] b].
   cbn [fst snd] in *. destruct fca.
   - now constructor.
   - apply Permutation_sym, Permutation_cons_app, Permutation_sym, IH.
+Qed.
+
+(* wake_waiters moves native waiters only: `p_w == NULL` records stay on the to_wake_list (the first element is a
+   native waiter: pmu != NULL) *)
+Lemma xfer_rest_native nn ty fca fw q : forall a b p,
+  In p (fst (fst (fst (xfer_rest nn ty fca fw q a b)))) -> nn p = false.
+Proof.
+  induction q as [|x rest IH]; intros a b p; cbn [xfer_rest]; [intros []|].
+  destruct (nn x) eqn:Nx; [|destruct (fca || fw || mode_eqb (ty x) W)].
+  - specialize (IH a b p). destruct (xfer_rest nn ty fca fw rest a b) as [[[m s] a'] b']. cbn [fst snd] in *. exact IH.
+  - specialize (IH (a || mode_eqb (ty x) W) b p).
+    destruct (xfer_rest nn ty fca fw rest (a || mode_eqb (ty x) W) b) as [[[m s] a'] b']. cbn [fst snd] in *.
+    intros [<- | H]; [exact Nx | exact (IH H)].
+  - specialize (IH a (b || negb (mode_eqb (ty x) W)) p).
+    destruct (xfer_rest nn ty fca fw rest a (b || negb (mode_eqb (ty x) W))) as [[[m s] a'] b']. cbn [fst snd] in *. exact IH.
+Qed.
+
+Lemma xfer_moved_native nn ty fca wk p :
+  (forall f, hd_error wk = Some f -> nn f = false) -> In p (fst (fst (xfer nn ty fca wk))) -> nn p = false.
+Proof.
+  unfold xfer. destruct wk as [|f rest]; [intros _ []|]. intros Hf.
+  pose proof (xfer_rest_native nn ty fca (mode_eqb (ty f) W) rest (if fca then mode_eqb (ty f) W else false)
+                (if fca then false else negb (mode_eqb (ty f) W)) p) as IH.
+  destruct (xfer_rest nn ty fca (mode_eqb (ty f) W) rest (if fca then mode_eqb (ty f) W else false)
+              (if fca then false else negb (mode_eqb (ty f) W))) as [[[m s] a] b].
+  cbn [fst snd] in *. destruct fca; [|exact IH].
+  intros [<- | H]; [apply Hf; reflexivity | exact (IH H)].
 Qed.
 
 Lemma remove_id_in r l x : In x (remove_id r l) <-> In x l /\ x <> r.
@@ -381,14 +411,34 @@ Definition kwl (xp : xpc) : list nat :=
   | _ => []
   end.
 Definition xaf (xw : xworld) (p : nat) : bool := wph2 (x_pc (xget xw p)) && xferred xw p.
-Definition cvs (xw : xworld) (p : nat) : bool := wph2 (x_pc (xget xw p)) && negb (xferred xw p).
+(* parked on the cv side: a native waiter that has not been transferred, or the record of an nsync_wait_n call *)
+Definition cvs (xw : xworld) (p : nat) : bool :=
+  (wph2 (x_pc (xget xw p)) && negb (xferred xw p)) || xn_rec (x_pc (xget xw p)).
 Definition slp (xw : xworld) (p : nat) : bool := slpf (mw xw) (xaf xw) p.
 Definition kws (xw : xworld) (t : nat) : list nat := kwl (x_pc (xget xw t)).
 Definition FLg (xw : xworld) : Prop :=
   forall t, preq (x_pc (xget xw t)) = true -> waiting (mw xw) t = true /\ xferred xw t = false.
-Definition PInv (xw : xworld) : Prop :=
+(* wake_waiters with pmu != NULL (before / at its acquiring CAS): the first element of its to_wake_list is a native waiter *)
+Definition vhd (xp : xpc) : option nat :=
+  match xp with XvLoad1 k | XvCas1 k _ => hd_error (k_wake k) | _ => None end.
+Definition NHd (xw : xworld) : Prop :=
+  forall t f, vhd (x_pc (xget xw t)) = Some f -> xn_rec (x_pc (xget xw f)) = false.
+Definition PInv3 (xw : xworld) : Prop :=
   QLx (queue (mw xw)) (waiting (mw xw)) (slp xw) (wlt (mw xw)) /\
   QLx (cvq xw) (waiting (mw xw)) (cvs xw) (kws xw) /\ FLg xw.
+Definition PInv (xw : xworld) : Prop :=
+  QLx (queue (mw xw)) (waiting (mw xw)) (slp xw) (wlt (mw xw)) /\
+  QLx (cvq xw) (waiting (mw xw)) (cvs xw) (kws xw) /\ FLg xw /\ NHd xw.
+Lemma PInv_split xw : PInv xw <-> PInv3 xw /\ NHd xw.
+Proof. unfold PInv, PInv3. tauto. Qed.
+
+Lemma xn_rec_pc n xw p : XInv n xw -> xn_rec (x_pc (xget xw p)) = true ->
+  (t_pc (get (mw xw) p) = Idle \/ is_unl_pc (t_pc (get (mw xw) p)) = true) /\ wph2 (x_pc (xget xw p)) = false /\
+  preq (x_pc (xget xw p)) = false.
+Proof.
+  intros (_ & _ & HT) H. destruct (HT p) as [Hp _]. destruct (x_pc (xget xw p)); try discriminate H; cbn [xpc_ok] in Hp;
+    (split; [tauto | split; reflexivity]).
+Qed.
 
 Lemma wph2_pc n xw p : XInv n xw -> wph2 (x_pc (xget xw p)) = true ->
   t_pc (get (mw xw) p) = Idle \/ is_unl_pc (t_pc (get (mw xw) p)) = true.
@@ -406,8 +456,18 @@ Proof.
 Qed.
 Lemma cvs_not_slp n xw p : XInv n xw -> cvs xw p = true -> slp xw p = false.
 Proof.
-  intros HI H. unfold cvs in H. apply andb_prop in H. destruct H as [A B]. apply negb_true_iff in B.
-  unfold slp, slpf, xaf. now rewrite (wph2_not_isq n xw p HI A), A, B.
+  intros HI H. unfold cvs in H. apply orb_prop in H. destruct H as [H | H].
+  - apply andb_prop in H. destruct H as [A B]. apply negb_true_iff in B.
+    unfold slp, slpf, xaf. now rewrite (wph2_not_isq n xw p HI A), A, B.
+  - destruct (xn_rec_pc n xw p HI H) as (Pc & W2 & _). unfold slp, slpf, xaf, kof. rewrite W2.
+    destruct Pc as [-> | U]; [reflexivity|]. destruct (t_pc (get (mw xw) p)); try discriminate U; reflexivity.
+Qed.
+(* a native waiter parked on the cv *)
+Lemma cvs_native xw p : cvs xw p = true -> xn_rec (x_pc (xget xw p)) = false ->
+  wph2 (x_pc (xget xw p)) = true /\ xferred xw p = false.
+Proof.
+  unfold cvs. intros H N. rewrite N, orb_false_r in H. apply andb_prop in H. destruct H as [A B].
+  apply negb_true_iff in B. auto.
 Qed.
 Lemma preq_not_slp n xw p : XInv n xw -> preq (x_pc (xget xw p)) = true -> slp xw p = false /\ cvs xw p = false.
 Proof.
@@ -422,18 +482,21 @@ Proof.
 Qed.
 
 (* a step that changes neither a list, nor a waiting / transferred flag, nor the class of a pc *)
-Lemma PInv_local xw m' t xs' : PInv xw -> (t < length (xthr xw))%nat ->
+Lemma PInv_local xw m' t xs' : PInv3 xw -> (t < length (xthr xw))%nat ->
   queue m' = queue (mw xw) -> waiting m' = waiting (mw xw) -> (forall u, kof m' u = kof (mw xw) u) ->
   wph2 (x_pc xs') = wph2 (x_pc (xget xw t)) -> kwl (x_pc xs') = kwl (x_pc (xget xw t)) ->
   (preq (x_pc xs') = true -> preq (x_pc (xget xw t)) = true) ->
-  PInv (mk_xw m' (cvq xw) (xferred xw) (lupd (xthr xw) t xs')).
+  xn_rec (x_pc xs') = xn_rec (x_pc (xget xw t)) ->
+  PInv3 (mk_xw m' (cvq xw) (xferred xw) (lupd (xthr xw) t xs')).
 Proof.
-  intros (HM & HC & HF) Ht Eq Ew Ek Ewp Ekw Epr.
+  intros (HM & HC & HF) Ht Eq Ew Ek Ewp Ekw Epr Enr.
   set (xw' := mk_xw m' (cvq xw) (xferred xw) (lupd (xthr xw) t xs')).
   assert (forall p, wph2 (x_pc (xget xw' p)) = wph2 (x_pc (xget xw p))) as W.
   { intros p. destruct (Nat.eq_dec p t) as [->|N]; [unfold xw'; now rewrite xget_lupd_same | unfold xw'; now rewrite xget_lupd_other]. }
+  assert (forall p, xn_rec (x_pc (xget xw' p)) = xn_rec (x_pc (xget xw p))) as WN.
+  { intros p. destruct (Nat.eq_dec p t) as [->|N]; [unfold xw'; now rewrite xget_lupd_same | unfold xw'; now rewrite xget_lupd_other]. }
   assert (forall p, xaf xw' p = xaf xw p) as XA by (intros p; unfold xaf; now rewrite W).
-  assert (forall p, cvs xw' p = cvs xw p) as XC by (intros p; unfold cvs; now rewrite W).
+  assert (forall p, cvs xw' p = cvs xw p) as XC by (intros p; unfold cvs; now rewrite W, WN).
   assert (forall p, slp xw' p = slp xw p) as XS by (intros p; unfold slp, slpf; cbn [mw xw']; now rewrite Ek, XA).
   assert (forall u, kws xw' u = kws xw u) as XK.
   { intros u. unfold kws. destruct (Nat.eq_dec u t) as [->|N]; [unfold xw'; now rewrite xget_lupd_same | unfold xw'; now rewrite xget_lupd_other]. }
@@ -452,16 +515,19 @@ Variable n : nat.
 Hypothesis Hn : Z.of_nat n < 16777215.
 
 (* a step of mu.c by thread t *)
-Lemma PInv_mu xw t xs' : XInv n xw -> PInv xw -> (t < length (xthr xw))%nat ->
+Lemma PInv_mu xw t xs' : XInv n xw -> PInv3 xw -> (t < length (xthr xw))%nat ->
   wph2 (x_pc xs') = wph2 (x_pc (xget xw t)) -> kwl (x_pc xs') = kwl (x_pc (xget xw t)) -> preq (x_pc xs') = false ->
-  PInv (mk_xw (fst (step (mw xw) t)) (cvq xw) (xferred xw) (lupd (xthr xw) t xs')).
+  xn_rec (x_pc xs') = xn_rec (x_pc (xget xw t)) ->
+  PInv3 (mk_xw (fst (step (mw xw) t)) (cvq xw) (xferred xw) (lupd (xthr xw) t xs')).
 Proof.
-  intros HI (HM & HC & HF) Ht Ewp Ekw Epr.
+  intros HI (HM & HC & HF) Ht Ewp Ekw Epr Enr.
   set (xw' := mk_xw (fst (step (mw xw) t)) (cvq xw) (xferred xw) (lupd (xthr xw) t xs')).
   assert (forall p, wph2 (x_pc (xget xw' p)) = wph2 (x_pc (xget xw p))) as W.
   { intros p. destruct (Nat.eq_dec p t) as [->|N]; [unfold xw'; now rewrite xget_lupd_same | unfold xw'; now rewrite xget_lupd_other]. }
+  assert (forall p, xn_rec (x_pc (xget xw' p)) = xn_rec (x_pc (xget xw p))) as WN.
+  { intros p. destruct (Nat.eq_dec p t) as [->|N]; [unfold xw'; now rewrite xget_lupd_same | unfold xw'; now rewrite xget_lupd_other]. }
   assert (forall p, xaf xw' p = xaf xw p) as XA by (intros p; unfold xaf; now rewrite W).
-  assert (forall p, cvs xw' p = cvs xw p) as XC by (intros p; unfold cvs; now rewrite W).
+  assert (forall p, cvs xw' p = cvs xw p) as XC by (intros p; unfold cvs; now rewrite W, WN).
   assert (forall u, kws xw' u = kws xw u) as XK.
   { intros u. unfold kws. destruct (Nat.eq_dec u t) as [->|N]; [unfold xw'; now rewrite xget_lupd_same | unfold xw'; now rewrite xget_lupd_other]. }
   assert (forall p, waiting (mw xw) p = true -> slp xw p = false -> waiting (fst (step (mw xw) t)) p = true) as KW.
@@ -484,8 +550,8 @@ Proof.
     split; [|exact b]. apply KW; [exact a | apply (preq_not_slp n); assumption].
 Qed.
 
-Lemma PInv_mu0 xw t : XInv n xw -> PInv xw -> (t < length (xthr xw))%nat -> preq (x_pc (xget xw t)) = false ->
-  PInv (mk_xw (fst (step (mw xw) t)) (cvq xw) (xferred xw) (xthr xw)).
+Lemma PInv_mu0 xw t : XInv n xw -> PInv3 xw -> (t < length (xthr xw))%nat -> preq (x_pc (xget xw t)) = false ->
+  PInv3 (mk_xw (fst (step (mw xw) t)) (cvq xw) (xferred xw) (xthr xw)).
 Proof.
   intros HI HP Ht Hp.
   replace (mk_xw (fst (step (mw xw) t)) (cvq xw) (xferred xw) (xthr xw))
@@ -514,13 +580,13 @@ Proof.
 Qed.
 
 (* lists shrink or stay; the remaining members keep their flags *)
-Lemma PInv_shrink xw xw' : PInv xw ->
+Lemma PInv_shrink xw xw' : PInv3 xw ->
   queue (mw xw') = queue (mw xw) -> (forall u, wlt (mw xw') u = wlt (mw xw) u) ->
   NoDup (cvq xw') -> incl (cvq xw') (cvq xw) -> (forall u, NoDup (kws xw' u)) -> (forall u, incl (kws xw' u) (kws xw u)) ->
   (forall p, waiting (mw xw) p = true -> slp xw p = true -> waiting (mw xw') p = true /\ slp xw' p = true) ->
   (forall p, (In p (cvq xw') \/ exists u, In p (kws xw' u)) -> waiting (mw xw) p = true -> cvs xw p = true ->
              waiting (mw xw') p = true /\ cvs xw' p = true) ->
-  FLg xw' -> PInv xw'.
+  FLg xw' -> PInv3 xw'.
 Proof.
   intros (HM & HC & HF) Eq El Nq Iq Nk Ik FM FC HF'. split; [|split; [|exact HF']].
   - rewrite Eq. apply (QLx_ext _ _ _ _ _ _ _ HM FM El).
@@ -530,19 +596,22 @@ Proof.
 Qed.
 
 (* nsync_cv_signal / broadcast: thread t unlinks the waiters wk from the cv queue *)
-Lemma PInv_select xw t xs' wk kp : PInv xw -> (t < length (xthr xw))%nat ->
+Lemma PInv_select xw t xs' wk kp : PInv3 xw -> (t < length (xthr xw))%nat ->
   kws xw t = [] -> Permutation (wk ++ kp) (cvq xw) ->
-  wph2 (x_pc (xget xw t)) = false -> preq (x_pc (xget xw t)) = false ->
-  wph2 (x_pc xs') = false -> preq (x_pc xs') = false -> kwl (x_pc xs') = wk ->
-  PInv (mk_xw (mw xw) kp (xferred xw) (lupd (xthr xw) t xs')).
+  wph2 (x_pc (xget xw t)) = false -> preq (x_pc (xget xw t)) = false -> xn_rec (x_pc (xget xw t)) = false ->
+  wph2 (x_pc xs') = false -> preq (x_pc xs') = false -> xn_rec (x_pc xs') = false -> kwl (x_pc xs') = wk ->
+  PInv3 (mk_xw (mw xw) kp (xferred xw) (lupd (xthr xw) t xs')).
 Proof.
-  intros (HM & HC & HF) Ht K0 P W0 P0 W1 P1 K1.
+  intros (HM & HC & HF) Ht K0 P W0 P0 N0 W1 P1 N1 K1.
   set (xw' := mk_xw (mw xw) kp (xferred xw) (lupd (xthr xw) t xs')).
   assert (forall q, wph2 (x_pc (xget xw' q)) = wph2 (x_pc (xget xw q))) as W.
   { intros q. destruct (Nat.eq_dec q t) as [->|N]; [unfold xw'; rewrite xget_lupd_same by exact Ht; congruence
                                                     | unfold xw'; now rewrite xget_lupd_other]. }
+  assert (forall q, xn_rec (x_pc (xget xw' q)) = xn_rec (x_pc (xget xw q))) as WN.
+  { intros q. destruct (Nat.eq_dec q t) as [->|N]; [unfold xw'; rewrite xget_lupd_same by exact Ht; congruence
+                                                    | unfold xw'; now rewrite xget_lupd_other]. }
   assert (forall q, slp xw' q = slp xw q) as XS by (intros q; unfold slp, slpf, xaf; cbn [mw xferred xw']; now rewrite W).
-  assert (forall q, cvs xw' q = cvs xw q) as XC by (intros q; unfold cvs; cbn [xferred xw']; now rewrite W).
+  assert (forall q, cvs xw' q = cvs xw q) as XC by (intros q; unfold cvs; cbn [xferred xw']; now rewrite W, WN).
   split; [|split]; cbn [mw cvq xw'].
   - apply (QLx_ext _ _ _ _ _ _ _ HM); [|intros; reflexivity]. intros q a b. rewrite XS. auto.
   - apply (QLx_scan _ _ _ _ _ _ _ t wk kp HC K0 P).
@@ -555,14 +624,15 @@ Proof.
 Qed.
 
 (* wake_waiters: thread t moves the waiters [moved] of its to_wake_list to the mutex queue and marks them transferred *)
-Lemma PInv_transfer n xw m' t xs' moved stay : XInv n xw -> PInv xw -> (t < length (xthr xw))%nat ->
+Lemma PInv_transfer n xw m' t xs' moved stay : XInv n xw -> PInv3 xw -> (t < length (xthr xw))%nat ->
   Permutation (moved ++ stay) (kws xw t) ->
-  wph2 (x_pc (xget xw t)) = false -> preq (x_pc (xget xw t)) = false ->
-  wph2 (x_pc xs') = false -> preq (x_pc xs') = false -> kwl (x_pc xs') = stay ->
+  (forall p, In p moved -> xn_rec (x_pc (xget xw p)) = false) ->
+  wph2 (x_pc (xget xw t)) = false -> preq (x_pc (xget xw t)) = false -> xn_rec (x_pc (xget xw t)) = false ->
+  wph2 (x_pc xs') = false -> preq (x_pc xs') = false -> xn_rec (x_pc xs') = false -> kwl (x_pc xs') = stay ->
   queue m' = queue (mw xw) ++ moved -> waiting m' = waiting (mw xw) -> (forall u, kof m' u = kof (mw xw) u) ->
-  PInv (mk_xw m' (cvq xw) (set_all (xferred xw) moved true) (lupd (xthr xw) t xs')).
+  PInv3 (mk_xw m' (cvq xw) (set_all (xferred xw) moved true) (lupd (xthr xw) t xs')).
 Proof.
-  intros HI (HM & HC & HF) Ht P W0 P0 W1 P1 K1 Eq Ew Ek.
+  intros HI (HM & HC & HF) Ht P HNat W0 P0 N0 W1 P1 N1 K1 Eq Ew Ek.
   set (xw' := mk_xw m' (cvq xw) (set_all (xferred xw) moved true) (lupd (xthr xw) t xs')).
   pose proof HC as (Nq & Hq & Hn & Hw & Hd).
   pose proof (Permutation_NoDup (Permutation_sym P) (Hn t)) as N2.
@@ -572,8 +642,11 @@ Proof.
   assert (forall q, wph2 (x_pc (xget xw' q)) = wph2 (x_pc (xget xw q))) as W.
   { intros q. destruct (Nat.eq_dec q t) as [->|N]; [unfold xw'; rewrite xget_lupd_same by exact Ht; congruence
                                                     | unfold xw'; now rewrite xget_lupd_other]. }
+  assert (forall q, xn_rec (x_pc (xget xw' q)) = xn_rec (x_pc (xget xw q))) as WN.
+  { intros q. destruct (Nat.eq_dec q t) as [->|N]; [unfold xw'; rewrite xget_lupd_same by exact Ht; congruence
+                                                    | unfold xw'; now rewrite xget_lupd_other]. }
   assert (forall q, ~ In q moved -> cvs xw' q = cvs xw q) as XC.
-  { intros q Nq'. unfold cvs. cbn [xferred xw']. now rewrite W, set_all_other. }
+  { intros q Nq'. unfold cvs. cbn [xferred xw']. now rewrite W, WN, set_all_other. }
   assert (kws xw' t = stay) as Kt by (unfold kws, xw'; now rewrite xget_lupd_same).
   assert (forall u, u <> t -> kws xw' u = kws xw u) as KO by (intros u N; unfold kws, xw'; now rewrite xget_lupd_other).
   split; [|split]; cbn [mw cvq xw'].
@@ -581,7 +654,7 @@ Proof.
     + intros p Hp. destruct (Hw t p (Im p Hp)) as (a & b & _).
       split; [apply (cvs_not_slp n); assumption|]. split; [exact a|].
       unfold slp, slpf, xaf. cbn [mw xferred xw']. rewrite W, set_all_in by exact Hp.
-      unfold cvs in b. apply andb_prop in b. rewrite (proj1 b). apply orb_true_r.
+      destruct (cvs_native xw p b (HNat p Hp)) as [b1 _]. rewrite b1. apply orb_true_r.
     + intros p a b. split; [exact a|]. unfold slp, slpf, xaf in *. cbn [mw xferred xw']. rewrite Ek, W.
       apply orb_prop in b. destruct b as [-> | b]; [reflexivity|]. apply andb_prop in b. destruct b as [-> b].
       destruct (in_dec Nat.eq_dec p moved) as [I|NI]; [rewrite set_all_in by exact I | rewrite set_all_other, b by exact NI];
@@ -605,6 +678,54 @@ Proof.
     destruct (preq_not_slp n xw u HI Hu) as [_ X]. congruence.
 Qed.
 
+(* ---- the first element of wake_waiters' list, while pmu != NULL is in use, is a native waiter ---- *)
+Lemma vhd_in xp f : vhd xp = Some f -> In f (kwl xp) /\ xn_rec xp = false.
+Proof.
+  destruct xp; try discriminate; cbn [vhd kwl xn_rec]; destruct (k_wake k); try discriminate; intros E; inversion E; split; auto; now left.
+Qed.
+
+(* thread t changes its wrapper state: the new head (if any) is native; t itself does not become an nsync_wait_n record
+   while it is the head of somebody's list *)
+Lemma NHd_upd xw m' q' f' t xs' : NHd xw -> PInv3 xw -> (t < length (xthr xw))%nat ->
+  (forall f, vhd (x_pc xs') = Some f -> f <> t -> xn_rec (x_pc (xget xw f)) = false) ->
+  xn_rec (x_pc xs') = false \/ xn_rec (x_pc (xget xw t)) = true \/ cvs xw t = false ->
+  NHd (mk_xw m' q' f' (lupd (xthr xw) t xs')).
+Proof.
+  intros HN (_ & HC & _) Ht Hnew Hself u f Hv.
+  destruct (Nat.eq_dec u t) as [->|Nu].
+  - rewrite xget_lupd_same in Hv by exact Ht.
+    destruct (Nat.eq_dec f t) as [->|Nf]; [rewrite xget_lupd_same by exact Ht; apply (vhd_in _ _ Hv)|].
+    rewrite xget_lupd_other by exact Nf. apply Hnew; assumption.
+  - rewrite xget_lupd_other in Hv by exact Nu.
+    destruct (Nat.eq_dec f t) as [->|Nf]; [|rewrite xget_lupd_other by exact Nf; apply (HN u f Hv)].
+    rewrite xget_lupd_same by exact Ht.
+    destruct Hself as [E | [E | E]]; [exact E | rewrite (HN u t Hv) in E; discriminate E|].
+    destruct HC as (_ & _ & _ & Hw & _). destruct (Hw u t (proj1 (vhd_in _ _ Hv))) as (_ & b & _). congruence.
+Qed.
+
+Lemma NHd_xthr xw xw' : xthr xw' = xthr xw -> NHd xw -> NHd xw'.
+Proof. intros E HN u f. unfold xget. rewrite E. apply HN. Qed.
+
+Lemma xbegin_nhd xw t : NHd xw -> NHd (xbegin xw t).
+Proof.
+  intros H0. unfold xbegin. cbv zeta.
+  destruct (xget xw t) as [xp xo xr] eqn:Hx. cbn [x_pc x_ops x_rets].
+  destruct xp; try exact H0. destruct xo as [|o rest]; try exact H0.
+  destruct (mu_idle (mw xw) t) eqn:MI; try exact H0.
+  assert (t < length (xthr xw))%nat as Ht by (apply xget_inb; rewrite Hx; discriminate).
+  assert (forall m' q' f' p, (forall f, vhd p <> Some f) -> xn_rec p = false ->
+            NHd (mk_xw m' q' f' (lupd (xthr xw) t (mk_xt p rest xr)))) as GEN.
+  { intros m' q' f' p Hv Hn u f Hu. destruct (Nat.eq_dec u t) as [->|Nu].
+    - rewrite xget_lupd_same in Hu by exact Ht. now elim (Hv f).
+    - rewrite xget_lupd_other in Hu by exact Nu.
+      destruct (Nat.eq_dec f t) as [->|Nf]; [rewrite xget_lupd_same by exact Ht; exact Hn|].
+      rewrite xget_lupd_other by exact Nf. apply (H0 u f Hu). }
+  unfold xget in Hx.
+  destruct o as [o'|m| | |[m|]]; xnorm; rewrite ?Hx; cbn [x_pc x_ops x_rets]; rewrite ?nth_lupd_same by exact Ht; cbn [x_pc x_ops x_rets];
+    try (apply GEN; [intros f; discriminate | reflexivity]).
+  all: destruct (held (get (mw xw) t)) as [m'|]; [destruct (mode_eqb m m')|]; apply GEN; try (intros f; discriminate); reflexivity.
+Qed.
+
 Section PlacesInvariant2.
 Variable n : nat.
 Hypothesis Hn : Z.of_nat n < 16777215.
@@ -614,7 +735,7 @@ Ltac xnorm :=
   rewrite ?lupd_lupd.
 Ltac xn Hx := xnorm; rewrite ?Hx; cbn [x_pc x_ops x_rets].
 
-Lemma xbegin_pinv xw t : PInv xw -> PInv (xbegin xw t).
+Lemma xbegin_pinv3 xw t : PInv3 xw -> PInv3 (xbegin xw t).
 Proof.
   intros H0. unfold xbegin. cbv zeta.
   destruct (xget xw t) as [xp xo xr] eqn:Hx. cbn [x_pc x_ops x_rets].
@@ -622,21 +743,51 @@ Proof.
   destruct (mu_idle (mw xw) t) eqn:MI; try exact H0.
   assert (t < length (xthr xw))%nat as Ht by (apply xget_inb; rewrite Hx; discriminate).
   pose proof Hx as Hx'. unfold xget in Hx.
-  destruct o as [o'|m| |]; xn Hx; rewrite ?nth_lupd_same by exact Ht; cbn [x_pc x_ops x_rets];
-    (apply PInv_local; [exact H0 | exact Ht | reflexivity | reflexivity | | | | ]);
-    rewrite ?Hx'; cbn [x_pc wph2 kwl preq]; try reflexivity; try discriminate;
+  destruct o as [o'|m| | |[m|]]; xn Hx; rewrite ?nth_lupd_same by exact Ht; cbn [x_pc x_ops x_rets];
+    (apply PInv_local; [exact H0 | exact Ht | reflexivity | reflexivity | | | | | ]);
+    rewrite ?Hx'; cbn [x_pc wph2 kwl preq xn_rec]; try reflexivity; try discriminate;
     try (intros u; first [apply kof_push_op | reflexivity]).
-  all: destruct (held (get (mw xw) t)) as [m'|]; [destruct (mode_eqb m m')|]; cbn [wph2 kwl preq]; first [reflexivity | discriminate].
+  all: destruct (held (get (mw xw) t)) as [m'|]; [destruct (mode_eqb m m')|]; cbn [wph2 kwl preq xn_rec]; first [reflexivity | discriminate].
 Qed.
 
 Ltac ploc H1 Ht Hx' :=
   apply PInv_local; [exact H1 | exact Ht | reflexivity | reflexivity | intros; reflexivity
                     | rewrite Hx'; cbn [x_pc wph2]; try reflexivity | rewrite Hx'; cbn [x_pc kwl]; try reflexivity
-                    | rewrite Hx'; cbn [x_pc preq]; first [discriminate | intros _; reflexivity | idtac] ].
+                    | rewrite Hx'; cbn [x_pc preq]; first [discriminate | intros _; reflexivity | idtac]
+                    | rewrite Hx'; cbn [x_pc xn_rec]; try reflexivity ].
 
-Lemma xstep_thr_pinv xw0 t c : XInv n xw0 -> PInv xw0 -> PInv (fst (xstep_thr xw0 t c)).
+(* thread t, parked nowhere before and after the step, changes its own waiting flag (of its nsync_wait_n record) and
+   its own next MuModel pc (to one with the role of Idle) *)
+Lemma PInv_ownflag xw m' t xs' : XInv n xw -> PInv3 xw -> (t < length (xthr xw))%nat ->
+  queue m' = queue (mw xw) -> (forall p, p <> t -> waiting m' p = waiting (mw xw) p) -> (forall u, kof m' u = kof (mw xw) u) ->
+  slp xw t = false -> cvs xw t = false -> preq (x_pc (xget xw t)) = false -> kws xw t = [] ->
+  wph2 (x_pc xs') = false -> xn_rec (x_pc xs') = false -> preq (x_pc xs') = false -> kwl (x_pc xs') = [] ->
+  PInv3 (mk_xw m' (cvq xw) (xferred xw) (lupd (xthr xw) t xs')).
 Proof.
-  intros HI0 H0. pose proof (xbegin_pinv _ t H0) as H1. apply (xbegin_inv n Hn _ t) in HI0. clear H0.
+  intros HI H1 Ht Eq Ew EK St Ct Pt Kt0 W1 N1 P1 K1. pose proof H1 as (HM & HC & HF).
+  set (xw' := mk_xw m' (cvq xw) (xferred xw) (lupd (xthr xw) t xs')).
+  assert (forall p, p <> t -> slp xw' p = slp xw p /\ cvs xw' p = cvs xw p /\ kws xw' p = kws xw p /\ xaf xw' p = xaf xw p) as FO.
+  { intros p N. apply flags_other; [exact N | reflexivity | apply EK]. }
+  assert (kws xw' t = []) as Kt by (unfold kws, xw'; rewrite xget_lupd_same by exact Ht; exact K1).
+  apply (PInv_shrink xw xw' H1).
+  - exact Eq.
+  - intros u. unfold wlt. fold (kof (mw xw') u). fold (kof (mw xw) u). cbn [mw xw']. now rewrite EK.
+  - apply HC.
+  - apply incl_refl.
+  - intros u. destruct (Nat.eq_dec u t) as [->|N]; [rewrite Kt; constructor | rewrite (proj1 (proj2 (proj2 (FO u N)))); apply HC].
+  - intros u. destruct (Nat.eq_dec u t) as [->|N]; [rewrite Kt; intros ? [] | rewrite (proj1 (proj2 (proj2 (FO u N)))); apply incl_refl].
+  - intros p Wp Sp. assert (p <> t) as N by congruence. cbn [mw xw']. rewrite Ew by exact N. rewrite (proj1 (FO p N)). auto.
+  - intros p _ Wp Cp. assert (p <> t) as N by congruence. cbn [mw xw']. rewrite Ew by exact N. rewrite (proj1 (proj2 (FO p N))). auto.
+  - intros u Hu. cbn [mw xferred xw'].
+    assert (u <> t) as N by (intros ->; unfold xw' in Hu; rewrite xget_lupd_same in Hu by exact Ht; congruence).
+    unfold xw' in Hu. rewrite xget_lupd_other in Hu by exact N. rewrite Ew by exact N. apply (HF u Hu).
+Qed.
+
+Lemma xstep_thr_pinv3 xw0 t c : XInv n xw0 -> NHd xw0 -> PInv3 xw0 -> PInv3 (fst (xstep_thr xw0 t c)).
+Proof.
+  intros HI0 HN0 H0. pose proof (xbegin_pinv3 _ t H0) as H1.
+  assert (NHd (xbegin xw0 t)) as HN1 by (apply xbegin_nhd; exact HN0). clear HN0.
+  apply (xbegin_inv n Hn _ t) in HI0. clear H0.
   unfold xstep_thr. set (xw := xbegin xw0 t) in *. clearbody xw. clear xw0. cbv zeta.
   pose proof HI0 as (HI & HL & HT). destruct (HT t) as [Hp _].
   pose proof H1 as (HM & HC & HF).
@@ -662,7 +813,7 @@ Proof.
     assert (forall p, p <> t -> slp xw' p = slp xw p /\ cvs xw' p = cvs xw p /\ kws xw' p = kws xw p /\ xaf xw' p = xaf xw p) as FO.
     { intros p N. apply flags_other; [exact N | now apply fupd_other | reflexivity]. }
     assert (slp xw t = false /\ cvs xw t = false) as [St Ct].
-    { unfold slp, slpf, cvs, xaf, kof. rewrite Hx'. cbn [x_pc wph2]. rewrite (proj1 Hp). split; reflexivity. }
+    { unfold slp, slpf, cvs, xaf, kof. rewrite Hx'. cbn [x_pc wph2 xn_rec]. rewrite (proj1 Hp). split; reflexivity. }
     assert (kws xw' t = []) as Kt by (unfold kws, xw'; rewrite xget_lupd_same by exact Ht; reflexivity).
     apply (PInv_shrink xw xw' H1).
     + reflexivity.
@@ -788,22 +939,25 @@ Proof.
   - (* XkLoad *) assert (t < length (xthr xw))%nat as Ht by (apply HtN; discriminate).
     destruct c; [|destruct (cvq xw)]; cbn [fst]; try exact H1; xn Hx; ploc H1 Ht Hx'.
   - (* XkSelect *) assert (t < length (xthr xw))%nat as Ht by (apply HtN; discriminate).
-    assert (Permutation (fst (fst (if bc then sel_broadcast (wtype (mw xw)) (cvq xw) else sel_signal (wtype (mw xw)) (cvq xw))) ++
-                         snd (fst (if bc then sel_broadcast (wtype (mw xw)) (cvq xw) else sel_signal (wtype (mw xw)) (cvq xw))))
+    assert (Permutation (fst (fst (if bc then sel_broadcast (xrd xw) (cvq xw) else sel_signal (xrd xw) (cvq xw))) ++
+                         snd (fst (if bc then sel_broadcast (xrd xw) (cvq xw) else sel_signal (xrd xw) (cvq xw))))
                         (cvq xw)) as P by (destruct bc; [apply sel_broadcast_perm | apply sel_signal_perm]).
-    destruct (if bc then sel_broadcast (wtype (mw xw)) (cvq xw) else sel_signal (wtype (mw xw)) (cvq xw)) as [[wk kp] allr].
+    destruct (if bc then sel_broadcast (xrd xw) (cvq xw) else sel_signal (xrd xw) (cvq xw)) as [[wk kp] allr].
     cbn [fst snd] in P.
-    destruct wk; cbn [fst]; xn Hx;
+    destruct wk as [|f wk']; [|destruct (nrec xw f)]; cbn [fst]; xn Hx;
       (eapply PInv_select; [exact H1 | exact Ht | unfold kws; rewrite Hx'; reflexivity | exact P
-                                          | rewrite Hx'; reflexivity | rewrite Hx'; reflexivity | reflexivity | reflexivity | reflexivity]).
+                                          | rewrite Hx'; reflexivity | rewrite Hx'; reflexivity | rewrite Hx'; reflexivity
+                                          | reflexivity | reflexivity | reflexivity | reflexivity]).
   - (* XvLoad1 *) assert (t < length (xthr xw))%nat as Ht by (apply HtN; discriminate).
     destruct (xfer_wanted (wtype (mw xw)) (word (mw xw)) k); cbn [fst]; xn Hx;
       [|unfold wake_loop; destruct (k_wake k) eqn:Ek]; ploc H1 Ht Hx'; now rewrite Ek.
   - (* XvCas1 *) assert (t < length (xthr xw))%nat as Ht by (apply HtN; discriminate).
     unfold cas. destruct (word (mw xw) =? wake_waiters_cas1_old old); cbv beta iota.
-    + pose proof (xfer_perm (wtype (mw xw)) (first_cant_acquire (wtype (mw xw)) old (k_wake k)) (k_wake k)) as P.
-      destruct (xfer (wtype (mw xw)) (first_cant_acquire (wtype (mw xw)) old (k_wake k)) (k_wake k)) as [[moved stay] set_on].
-      cbn [fst snd] in P. cbn [fst]. xn Hx.
+    + pose proof (xfer_perm (nrec xw) (wtype (mw xw)) (first_cant_acquire (wtype (mw xw)) old (k_wake k)) (k_wake k)) as P.
+      pose proof (fun p => xfer_moved_native (nrec xw) (wtype (mw xw)) (first_cant_acquire (wtype (mw xw)) old (k_wake k)) (k_wake k) p
+                            (fun f Hf => HN1 t f ltac:(rewrite Hx'; exact Hf))) as MN.
+      destruct (xfer (nrec xw) (wtype (mw xw)) (first_cant_acquire (wtype (mw xw)) old (k_wake k)) (k_wake k)) as [[moved stay] set_on].
+      cbn [fst snd] in P, MN. cbn [fst]. xn Hx.
       apply (PInv_transfer n) with (stay := stay); auto; try (rewrite Hx'; reflexivity).
       unfold kws. rewrite Hx'. exact P.
     + cbn [fst]. xn Hx. unfold wake_loop; destruct (k_wake k) eqn:Ek; ploc H1 Ht Hx'; now rewrite Ek.
@@ -822,8 +976,11 @@ Proof.
     assert (forall q, wph2 (x_pc (xget xw' q)) = wph2 (x_pc (xget xw q))) as W.
     { intros q. destruct (Nat.eq_dec q t) as [->|N]; [unfold xw'; rewrite xget_lupd_same by exact Ht; now rewrite Hx'
                                                       | unfold xw'; now rewrite xget_lupd_other]. }
+    assert (forall q, xn_rec (x_pc (xget xw' q)) = xn_rec (x_pc (xget xw q))) as WN.
+    { intros q. destruct (Nat.eq_dec q t) as [->|N]; [unfold xw'; rewrite xget_lupd_same by exact Ht; now rewrite Hx'
+                                                      | unfold xw'; now rewrite xget_lupd_other]. }
     assert (forall q, slp xw' q = slp xw q) as XS by (intros q; unfold slp, slpf, xaf; cbn [mw xferred xw']; now rewrite W).
-    assert (forall q, cvs xw' q = cvs xw q) as XC by (intros q; unfold cvs; cbn [xferred xw']; now rewrite W).
+    assert (forall q, cvs xw' q = cvs xw q) as XC by (intros q; unfold cvs; cbn [xferred xw']; now rewrite W, WN).
     assert (kws xw t = p :: rest) as Kt0 by (unfold kws; rewrite Hx'; exact Ek).
     assert (kws xw' t = rest) as Kt by (unfold kws, xw'; rewrite xget_lupd_same by exact Ht; reflexivity).
     assert (forall u, u <> t -> kws xw' u = kws xw u) as KO by (intros u N; unfold kws, xw'; now rewrite xget_lupd_other).
@@ -841,8 +998,231 @@ Proof.
       rewrite fupd_other; [exact a|]. intros ->. destruct (preq_not_slp n xw p HI0 Hu) as [_ X]. congruence.
   - (* XvV *) assert (t < length (xthr xw))%nat as Ht by (apply HtN; discriminate).
     cbn [fst]; xn Hx; unfold wake_loop; destruct (k_wake k) eqn:Ek; ploc H1 Ht Hx'; now rewrite Ek.
+  - (* XnStore0 *) assert (t < length (xthr xw))%nat as Ht by (apply HtN; discriminate). cbn [fst]. xn Hx.
+    apply (PInv_ownflag xw); auto; try (rewrite Hx'; reflexivity); try (unfold kws; rewrite Hx'; reflexivity).
+    + intros p N. cbn [waiting set_waiting]. now apply fupd_other.
+    + unfold slp, slpf, xaf, kof. rewrite Hx'. cbn [x_pc wph2]. rewrite (proj1 Hp). reflexivity.
+    + unfold cvs. rewrite Hx'. reflexivity.
+  - (* XnEnq *) assert (t < length (xthr xw))%nat as Ht by (apply HtN; discriminate). destruct Hp as (PI & _).
+    change (negb (cv_enqueue_store1_new =? 0)) with true.
+    assert (forall m' xs', (forall u, kof m' u = kof (mw xw) u) -> queue m' = queue (mw xw) -> waiting m' = fupd (waiting (mw xw)) t true ->
+              xn_rec (x_pc xs') = true -> kwl (x_pc xs') = [] -> preq (x_pc xs') = false -> wph2 (x_pc xs') = false ->
+              PInv3 (mk_xw m' (cvq xw ++ [t]) (xferred xw) (lupd (xthr xw) t xs'))) as GEN.
+    { intros m' xs' EK Eq Ew N1 K1 P1 W1.
+      set (xw' := mk_xw m' (cvq xw ++ [t]) (xferred xw) (lupd (xthr xw) t xs')).
+      assert (forall p, p <> t -> slp xw' p = slp xw p /\ cvs xw' p = cvs xw p /\ kws xw' p = kws xw p /\ xaf xw' p = xaf xw p) as FO.
+      { intros p N. apply flags_other; [exact N | reflexivity | apply EK]. }
+      assert (kws xw' t = [] /\ kws xw t = []) as [Kt Kt0].
+      { unfold kws, xw'. rewrite xget_lupd_same by exact Ht. rewrite Hx'. split; [exact K1 | reflexivity]. }
+      assert (slp xw' t = false /\ slp xw t = false /\ cvs xw' t = true /\ cvs xw t = false) as (S1 & S0 & C1 & C0).
+      { unfold slp, slpf, cvs, xaf. cbn [mw xferred xw']. rewrite EK. unfold xw'. rewrite xget_lupd_same by exact Ht.
+        rewrite Hx', N1, W1. unfold kof. rewrite PI. cbn. auto. }
+      split; [|split]; cbn [mw cvq xw'].
+      + rewrite Eq, Ew. apply (QLx_ext _ _ _ _ _ _ _ HM).
+        * intros q a b. destruct (Nat.eq_dec q t) as [->|N]; [congruence|]. rewrite fupd_other by exact N.
+          split; [exact a | now rewrite (proj1 (FO q N))].
+        * intros u. unfold wlt. fold (kof m' u). fold (kof (mw xw) u). now rewrite EK.
+      + rewrite Ew. apply (QLx_add _ _ _ _ _ _ _ _ [t] HC); [apply Permutation_app_comm | constructor; [intros [] | constructor] | | |].
+        * intros p [<- | []]. rewrite fupd_same. auto.
+        * intros q a b. destruct (Nat.eq_dec q t) as [->|N]; [congruence|]. rewrite fupd_other by exact N.
+          split; [exact a | now rewrite (proj1 (proj2 (FO q N)))].
+        * intros u. destruct (Nat.eq_dec u t) as [->|N]; [congruence | apply (FO u N)].
+      + intros u Hu. cbn [mw xferred xw'].
+        assert (u <> t) as N by (intros ->; unfold xw' in Hu; rewrite xget_lupd_same in Hu by exact Ht; congruence).
+        unfold xw' in Hu. rewrite xget_lupd_other in Hu by exact N. rewrite Ew, fupd_other by exact N. apply (HF u Hu). }
+    destruct om as [m|]; cbn [fst]; xn Hx; apply GEN; try reflexivity.
+    intros u. destruct (Nat.eq_dec u t) as [->|N]; [|now rewrite kof_set_pc_other].
+    unfold kof. rewrite get_set_pc_same by (cbn [thr set_waiting]; rewrite Hlen; exact Ht). cbn [t_pc].
+    change (get (set_waiting (mw xw) t true) t) with (get (mw xw) t). now rewrite PI.
+  - (* XnUnlock *) assert (t < length (xthr xw))%nat as Ht by (apply HtN; discriminate).
+    unfold mu_step. destruct (step (mw xw) t) as [m' e] eqn:E. xnorm.
+    assert (m' = fst (step (mw xw) t)) as Em by now rewrite E.
+    cbn [mw]. destruct (mu_pc_idle m' t); cbn [fst]; xn Hx; rewrite Em.
+    + apply (PInv_mu n); auto; rewrite Hx'; reflexivity.
+    + apply (PInv_mu0 n); auto. rewrite Hx'. reflexivity.
+  - (* XnReady *) assert (t < length (xthr xw))%nat as Ht by (apply HtN; discriminate).
+    destruct (cv_ready_time_load1_guard (b2z (waiting (mw xw) t))); cbn [fst]; xn Hx; ploc H1 Ht Hx'.
+  - (* XnSem *) assert (t < length (xthr xw))%nat as Ht by (apply HtN; discriminate).
+    destruct c; [destruct (0 <? sem (mw xw) t)|]; cbn [fst]; try exact H1; xn Hx; ploc H1 Ht Hx'.
+  - (* XnDeq *) assert (t < length (xthr xw))%nat as Ht by (apply HtN; discriminate). destruct Hp as (PI & _).
+    destruct (waiting (mw xw) t && cv_dequeue_store1_guard (b2z (mem_id t (cvq xw)))) eqn:Dq; [|cbn [fst]; xn Hx; ploc H1 Ht Hx'].
+    change (negb (cv_dequeue_store1_new =? 0)) with false.
+    apply andb_prop in Dq. destruct Dq as [Wt Mi].
+    assert (In t (cvq xw)) as Mi' by (apply mem_id_in; destruct (mem_id t (cvq xw)); [reflexivity | discriminate Mi]).
+    assert (forall m' xs', (forall u, kof m' u = kof (mw xw) u) -> queue m' = queue (mw xw) -> waiting m' = fupd (waiting (mw xw)) t false ->
+              xn_rec (x_pc xs') = false -> kwl (x_pc xs') = [] -> preq (x_pc xs') = false -> wph2 (x_pc xs') = false ->
+              PInv3 (mk_xw m' (remove_id t (cvq xw)) (xferred xw) (lupd (xthr xw) t xs'))) as GEN.
+    { intros m' xs' EK Eq Ew N1 K1 P1 W1.
+      set (xw' := mk_xw m' (remove_id t (cvq xw)) (xferred xw) (lupd (xthr xw) t xs')).
+      assert (forall p, p <> t -> slp xw' p = slp xw p /\ cvs xw' p = cvs xw p /\ kws xw' p = kws xw p /\ xaf xw' p = xaf xw p) as FO.
+      { intros p N. apply flags_other; [exact N | reflexivity | apply EK]. }
+      assert (kws xw' t = [] /\ kws xw t = []) as [Kt Kt0].
+      { unfold kws, xw'. rewrite xget_lupd_same by exact Ht. rewrite Hx'. split; [exact K1 | reflexivity]. }
+      pose proof HC as (Nq & Hq & _ & Hw & _). destruct (Hq t Mi') as [_ Ct].
+      pose proof (cvs_not_slp n xw t HI0 Ct) as St.
+      assert (forall u, ~ In t (kws xw u)) as NK by (intros u Hu; destruct (Hw u t Hu) as (_ & _ & X); contradiction).
+      apply (PInv_shrink xw xw' H1).
+      + exact Eq.
+      + intros u. unfold wlt. fold (kof (mw xw') u). fold (kof (mw xw) u). cbn [mw xw']. now rewrite EK.
+      + apply remove_id_nodup, Nq.
+      + intros x Hx0. cbn [cvq xw'] in Hx0. apply remove_id_in in Hx0. apply Hx0.
+      + intros u. destruct (Nat.eq_dec u t) as [->|N]; [rewrite Kt; constructor | rewrite (proj1 (proj2 (proj2 (FO u N)))); apply HC].
+      + intros u. destruct (Nat.eq_dec u t) as [->|N]; [rewrite Kt; intros ? [] | rewrite (proj1 (proj2 (proj2 (FO u N)))); apply incl_refl].
+      + intros p Wp Sp. assert (p <> t) as N by congruence. cbn [mw xw']. rewrite Ew.
+        rewrite fupd_other by exact N. rewrite (proj1 (FO p N)). auto.
+      + intros p Hin Wp Cp. assert (p <> t) as N.
+        { intros ->. destruct Hin as [Hin | [u Hin]].
+          - cbn [cvq xw'] in Hin. apply remove_id_in in Hin. now apply (proj2 Hin).
+          - destruct (Nat.eq_dec u t) as [->|Nu]; [rewrite Kt in Hin; destruct Hin|].
+            rewrite (proj1 (proj2 (proj2 (FO u Nu)))) in Hin. exact (NK u Hin). }
+        cbn [mw xw']. rewrite Ew, fupd_other by exact N. rewrite (proj1 (proj2 (FO p N))). auto.
+      + intros u Hu. cbn [mw xferred xw'].
+        assert (u <> t) as N by (intros ->; unfold xw' in Hu; rewrite xget_lupd_same in Hu by exact Ht; congruence).
+        unfold xw' in Hu. rewrite xget_lupd_other in Hu by exact N. rewrite Ew, fupd_other by exact N. apply (HF u Hu). }
+    destruct om as [m|]; cbn [fst]; xn Hx; apply GEN; try reflexivity.
+    intros u. destruct (Nat.eq_dec u t) as [->|N]; [|now rewrite kof_set_pc_other].
+    unfold kof. rewrite get_set_pc_same by (cbn [thr set_waiting]; rewrite Hlen; exact Ht). cbn [t_pc].
+    change (get (set_waiting (mw xw) t false) t) with (get (mw xw) t). now rewrite PI.
+  - (* XnSpin *) assert (t < length (xthr xw))%nat as Ht by (apply HtN; discriminate). destruct Hp as (PI & _).
+    destruct (waiting (mw xw) t) eqn:Wt; [cbn [fst]; exact H1|].
+    assert (forall m' xs', (forall u, kof m' u = kof (mw xw) u) -> queue m' = queue (mw xw) -> waiting m' = waiting (mw xw) ->
+              xn_rec (x_pc xs') = false -> kwl (x_pc xs') = [] -> preq (x_pc xs') = false -> wph2 (x_pc xs') = false ->
+              PInv3 (mk_xw m' (cvq xw) (xferred xw) (lupd (xthr xw) t xs'))) as GEN.
+    { intros m' xs' EK Eq Ew N1 K1 P1 W1.
+      set (xw' := mk_xw m' (cvq xw) (xferred xw) (lupd (xthr xw) t xs')).
+      assert (forall p, p <> t -> slp xw' p = slp xw p /\ cvs xw' p = cvs xw p /\ kws xw' p = kws xw p /\ xaf xw' p = xaf xw p) as FO.
+      { intros p N. apply flags_other; [exact N | reflexivity | apply EK]. }
+      assert (kws xw' t = [] /\ kws xw t = []) as [Kt Kt0].
+      { unfold kws, xw'. rewrite xget_lupd_same by exact Ht. rewrite Hx'. split; [exact K1 | reflexivity]. }
+      apply (PInv_shrink xw xw' H1).
+      + exact Eq.
+      + intros u. unfold wlt. fold (kof (mw xw') u). fold (kof (mw xw) u). cbn [mw xw']. now rewrite EK.
+      + apply HC.
+      + apply incl_refl.
+      + intros u. destruct (Nat.eq_dec u t) as [->|N]; [rewrite Kt; constructor | rewrite (proj1 (proj2 (proj2 (FO u N)))); apply HC].
+      + intros u. destruct (Nat.eq_dec u t) as [->|N]; [rewrite Kt; intros ? [] | rewrite (proj1 (proj2 (proj2 (FO u N)))); apply incl_refl].
+      + intros p Wp Sp. assert (p <> t) as N by congruence. cbn [mw xw']. rewrite Ew. rewrite (proj1 (FO p N)). auto.
+      + intros p _ Wp Cp. assert (p <> t) as N by congruence. cbn [mw xw']. rewrite Ew. rewrite (proj1 (proj2 (FO p N))). auto.
+      + intros u Hu. cbn [mw xferred xw'].
+        assert (u <> t) as N by (intros ->; unfold xw' in Hu; rewrite xget_lupd_same in Hu by exact Ht; congruence).
+        unfold xw' in Hu. rewrite xget_lupd_other in Hu by exact N. rewrite Ew. apply (HF u Hu). }
+    destruct om as [m|]; cbn [fst]; xn Hx; apply GEN; try reflexivity.
+    intros u. destruct (Nat.eq_dec u t) as [->|N]; [|now rewrite kof_set_pc_other].
+    unfold kof. rewrite get_set_pc_same by (rewrite Hlen; exact Ht). cbn [t_pc]. now rewrite PI.
+  - (* XnReacq *) assert (t < length (xthr xw))%nat as Ht by (apply HtN; discriminate).
+    unfold mu_step. destruct (step (mw xw) t) as [m' e] eqn:E. xnorm.
+    assert (m' = fst (step (mw xw) t)) as Em by now rewrite E.
+    cbn [mw]. destruct (mu_pc_idle m' t); cbn [fst]; xn Hx.
+    + rewrite nth_lupd_same by exact Ht. cbn [x_ops x_rets]. rewrite Em.
+      apply (PInv_mu n); auto; rewrite Hx'; reflexivity.
+    + rewrite Em. apply (PInv_mu0 n); auto. rewrite Hx'. reflexivity.
 Qed.
 End PlacesInvariant2.
+
+Section HeadInvariant.
+Variable n : nat.
+Hypothesis Hn : Z.of_nat n < 16777215.
+
+Ltac xnorm :=
+  unfold set_xpc, add_xret, set_xt, set_mw, set_cvq, set_xferred, xget; cbn [mw cvq xferred xthr];
+  rewrite ?lupd_lupd.
+Ltac xn Hx := xnorm; rewrite ?Hx; cbn [x_pc x_ops x_rets].
+
+Lemma xstep_thr_nhd xw0 t c : XInv n xw0 -> PInv3 xw0 -> NHd xw0 -> NHd (fst (xstep_thr xw0 t c)).
+Proof.
+  intros HI0 H0 HN0. pose proof (xbegin_pinv3 _ t H0) as H1. pose proof (xbegin_nhd _ t HN0) as HN1.
+  apply (xbegin_inv n Hn _ t) in HI0. clear H0 HN0.
+  unfold xstep_thr. set (xw := xbegin xw0 t) in *. clearbody xw. clear xw0. cbv zeta.
+  destruct (xget xw t) as [xp xo xr] eqn:Hx. cbn [x_pc x_ops x_rets] in *.
+  assert (xp <> XIdle -> (t < length (xthr xw))%nat) as HtN.
+  { intros NE. apply xget_inb. rewrite Hx. intros E. inversion E. contradiction. }
+  pose proof Hx as Hx'. unfold xget in Hx.
+  Local Ltac nh HN1 H1 Ht Hx' :=
+    first [ exact HN1
+          | apply (NHd_xthr _ _ eq_refl HN1)
+          | apply NHd_upd;
+            [ exact HN1 | exact H1 | exact Ht
+            | let f := fresh "f" in let Hv := fresh "Hv" in let Nf := fresh "Nf" in
+              intros f Hv Nf; cbn [x_pc vhd] in Hv; try discriminate Hv
+            | cbn [x_pc xn_rec]; first [ left; reflexivity | right; left; rewrite Hx'; reflexivity | idtac ] ] ].
+  destruct xp.
+  - (* XIdle *) unfold mu_step. destruct (step (mw xw) t) as [m' e]. cbn [fst]. xnorm. nh HN1 H1 Ht Hx'.
+  - exact HN1.
+  - (* XwStore *) assert (t < length (xthr xw))%nat as Ht by (apply HtN; discriminate). cbn [fst]. xn Hx. nh HN1 H1 Ht Hx'.
+  - (* XwLoadMu *) assert (t < length (xthr xw))%nat as Ht by (apply HtN; discriminate).
+    destruct (has (word (mw xw)) MU_WHELD_IF_NON_ZERO), (has (word (mw xw)) MU_RHELD_IF_NON_ZERO); cbn [fst]; xn Hx; nh HN1 H1 Ht Hx'.
+  - (* XwEnq *) assert (t < length (xthr xw))%nat as Ht by (apply HtN; discriminate). cbn [fst]. xn Hx. nh HN1 H1 Ht Hx'.
+  - (* XwUnlock *) assert (t < length (xthr xw))%nat as Ht by (apply HtN; discriminate).
+    unfold mu_step. destruct (step (mw xw) t) as [m' e]. xnorm. cbn [mw].
+    destruct (mu_pc_idle m' t); cbn [fst]; xn Hx; nh HN1 H1 Ht Hx'.
+  - (* XwLoop *) assert (t < length (xthr xw))%nat as Ht by (apply HtN; discriminate).
+    destruct (waiting (mw xw) t); cbn [fst]; xn Hx; [destruct (w_so l)|]; nh HN1 H1 Ht Hx'.
+  - (* XwSem *) assert (t < length (xthr xw))%nat as Ht by (apply HtN; discriminate).
+    destruct c; [destruct (0 <? sem (mw xw) t)|]; cbn [fst]; xn Hx; nh HN1 H1 Ht Hx'.
+  - (* XwLoad6 *) assert (t < length (xthr xw))%nat as Ht by (apply HtN; discriminate).
+    destruct (waiting (mw xw) t); cbn [fst]; xn Hx; nh HN1 H1 Ht Hx'.
+  - (* XwConfirm *) assert (t < length (xthr xw))%nat as Ht by (apply HtN; discriminate).
+    destruct (mem_id t (cvq xw)); cbn [fst]; xn Hx; nh HN1 H1 Ht Hx'.
+  - (* XwLoad13 *) assert (t < length (xthr xw))%nat as Ht by (apply HtN; discriminate). cbn [fst]. xn Hx. nh HN1 H1 Ht Hx'.
+  - (* XwReacq *) assert (t < length (xthr xw))%nat as Ht by (apply HtN; discriminate).
+    unfold mu_step. destruct (step (mw xw) t) as [m' e]. xnorm. cbn [mw].
+    destruct (mu_pc_idle m' t); cbn [fst]; xn Hx; rewrite ?lupd_lupd; nh HN1 H1 Ht Hx'.
+  - (* XkLoad *) assert (t < length (xthr xw))%nat as Ht by (apply HtN; discriminate).
+    destruct c; [|destruct (cvq xw)]; cbn [fst]; xn Hx; nh HN1 H1 Ht Hx'.
+  - (* XkSelect *) assert (t < length (xthr xw))%nat as Ht by (apply HtN; discriminate).
+    destruct (if bc then sel_broadcast (xrd xw) (cvq xw) else sel_signal (xrd xw) (cvq xw)) as [[wk kp] allr].
+    destruct wk as [|f wk']; [|destruct (nrec xw f) eqn:Nf0]; cbn [fst]; xn Hx; nh HN1 H1 Ht Hx'.
+    cbn [k_wake hd_error] in Hv. inversion Hv. subst. exact Nf0.
+  - (* XvLoad1 *) assert (t < length (xthr xw))%nat as Ht by (apply HtN; discriminate).
+    destruct (xfer_wanted (wtype (mw xw)) (word (mw xw)) k); cbn [fst]; xn Hx;
+      [|unfold wake_loop; destruct (k_wake k)]; nh HN1 H1 Ht Hx'.
+    apply (HN1 t f). rewrite Hx'. exact Hv.
+  - (* XvCas1 *) assert (t < length (xthr xw))%nat as Ht by (apply HtN; discriminate).
+    unfold cas. destruct (word (mw xw) =? wake_waiters_cas1_old old); cbv beta iota.
+    + destruct (xfer (nrec xw) (wtype (mw xw)) (first_cant_acquire (wtype (mw xw)) old (k_wake k)) (k_wake k)) as [[moved stay] set_on].
+      cbn [fst]. xn Hx. nh HN1 H1 Ht Hx'.
+    + cbn [fst]. xn Hx. unfold wake_loop; destruct (k_wake k); nh HN1 H1 Ht Hx'.
+  - (* XvLoad3 *) assert (t < length (xthr xw))%nat as Ht by (apply HtN; discriminate). cbn [fst]. xn Hx. nh HN1 H1 Ht Hx'.
+  - (* XvCas2 *) assert (t < length (xthr xw))%nat as Ht by (apply HtN; discriminate).
+    unfold cas. destruct (word (mw xw) =? wake_waiters_cas2_old old); cbv beta iota; cbn [fst]; xn Hx;
+      [unfold wake_loop; destruct (k_wake k)|]; nh HN1 H1 Ht Hx'.
+  - (* XvLoad5 *) assert (t < length (xthr xw))%nat as Ht by (apply HtN; discriminate). cbn [fst]. xn Hx. nh HN1 H1 Ht Hx'.
+  - (* XvStore *) assert (t < length (xthr xw))%nat as Ht by (apply HtN; discriminate).
+    destruct (k_wake k) as [|p rest]; cbn [fst]; xn Hx; nh HN1 H1 Ht Hx'.
+  - (* XvV *) assert (t < length (xthr xw))%nat as Ht by (apply HtN; discriminate).
+    cbn [fst]; xn Hx; unfold wake_loop; destruct (k_wake k); nh HN1 H1 Ht Hx'.
+  - (* XnStore0 *) assert (t < length (xthr xw))%nat as Ht by (apply HtN; discriminate). cbn [fst]. xn Hx. nh HN1 H1 Ht Hx'.
+  - (* XnEnq *) assert (t < length (xthr xw))%nat as Ht by (apply HtN; discriminate).
+    destruct om as [m|]; cbn [fst]; xn Hx; nh HN1 H1 Ht Hx'; right; right; unfold cvs; rewrite Hx'; reflexivity.
+  - (* XnUnlock *) assert (t < length (xthr xw))%nat as Ht by (apply HtN; discriminate).
+    unfold mu_step. destruct (step (mw xw) t) as [m' e]. xnorm. cbn [mw].
+    destruct (mu_pc_idle m' t); cbn [fst]; xn Hx; nh HN1 H1 Ht Hx'.
+  - (* XnReady *) assert (t < length (xthr xw))%nat as Ht by (apply HtN; discriminate).
+    destruct (cv_ready_time_load1_guard (b2z (waiting (mw xw) t))); cbn [fst]; xn Hx; nh HN1 H1 Ht Hx'.
+  - (* XnSem *) assert (t < length (xthr xw))%nat as Ht by (apply HtN; discriminate).
+    destruct c; [destruct (0 <? sem (mw xw) t)|]; cbn [fst]; xn Hx; nh HN1 H1 Ht Hx'.
+  - (* XnDeq *) assert (t < length (xthr xw))%nat as Ht by (apply HtN; discriminate).
+    destruct (waiting (mw xw) t && cv_dequeue_store1_guard (b2z (mem_id t (cvq xw)))); [destruct om as [m|]|]; cbn [fst]; xn Hx;
+      nh HN1 H1 Ht Hx'.
+  - (* XnSpin *) assert (t < length (xthr xw))%nat as Ht by (apply HtN; discriminate).
+    destruct (waiting (mw xw) t); [|destruct om as [m|]]; cbn [fst]; xn Hx; nh HN1 H1 Ht Hx'.
+  - (* XnReacq *) assert (t < length (xthr xw))%nat as Ht by (apply HtN; discriminate).
+    unfold mu_step. destruct (step (mw xw) t) as [m' e]. xnorm. cbn [mw].
+    destruct (mu_pc_idle m' t); cbn [fst]; xn Hx; rewrite ?lupd_lupd; nh HN1 H1 Ht Hx'.
+Qed.
+
+Lemma xstep_thr_pinv xw0 t c : XInv n xw0 -> PInv xw0 -> PInv (fst (xstep_thr xw0 t c)).
+Proof.
+  intros HI H0. apply PInv_split in H0. destruct H0 as [H3 HN]. apply PInv_split. split.
+  - apply (xstep_thr_pinv3 n Hn); assumption.
+  - apply xstep_thr_nhd; assumption.
+Qed.
+End HeadInvariant.
+
+Lemma xbegin_pinv xw t : PInv xw -> PInv (xbegin xw t).
+Proof.
+  intros H0. apply PInv_split in H0. destruct H0 as [H3 HN]. apply PInv_split. split; [apply xbegin_pinv3, H3 | apply xbegin_nhd, HN].
+Qed.
 
 Section PlacesRun.
 Variable n : nat.
@@ -880,7 +1260,8 @@ Proof.
     split; [constructor|]. split; [intros p []|].
     assert (forall t, kws (xinit progs) t = []) as K by (intros t; unfold kws; now rewrite PX).
     split; [intros t; rewrite K; constructor|]. split; [intros t p; rewrite K; intros [] | intros t1 t2 p; rewrite K; intros []].
-  - intros t Ht. rewrite PX in Ht. discriminate Ht.
+  - split; [intros t Ht; rewrite PX in Ht; discriminate Ht|].
+    intros t f Hv. rewrite PX in Hv. discriminate Hv.
 Qed.
 
 Lemma xreachable_pinv progs sched :
